@@ -4,6 +4,7 @@
   A corollary of `C02_equivalence`, whose `shown` counts the helper name of an edge among the names a program asks to show.
 -/
 import PotasscoVerif.Props.C02sem
+import PotasscoVerif.Props.C02x
 import PotasscoVerif.Props.C08b
 import PotasscoVerif.Lemmas.ConvertHeu
 namespace PotasscoVerif.C08
@@ -48,19 +49,19 @@ theorem srcOuts_mem (ds : List Call) (n : List Nat) (cond : List Int) :
     · exact ⟨_, h, rfl⟩
     · exact ⟨_, h, by simp [srcOut, e]⟩
 
-/-- **C08 (edges, answer-set level)**: for every program step of rules, minimize, output, external and edge directives (node numbers in the int range;
-    no output directive uses an `_edge(…)` helper name), converted with the extensions on: the answer sets correspond one to one (`C02_equivalence`),
+/-- **C08 (edges, answer-set level)**: for every program step of rules, minimize, output, ANY external and edge directives (node numbers in the int range;
+    no output directive uses an `_edge(…)` helper name), converted with the extensions on (externals passed on, `progOf` reads them): the answer sets correspond one to one (`C02_equivalence_ext`),
     and under corresponding answer sets an edge `(a,b)` is active in the given program iff the emitted program shows `_edge(a,b)` — the symbol the
     smodels reader turns back into an edge on that condition atom (`C08_table_read`). -/
-theorem C08_edges_active (inc : Bool) (ds : List Call) (hx : ∀ d ∈ ds, PlainOk d) (hnh : ∀ d ∈ ds, isHeu d = false) (hE : extCalls ds = [])
+theorem C08_edges_active (inc : Bool) (ds : List Call) (hx : ∀ d ∈ ds, PlainOk d) (hnh : ∀ d ∈ ds, isHeu d = false)
     (hr : ∀ a b cond, Call.acycEdge a b cond ∈ ds → (-2147483648 ≤ a ∧ a ≤ 2147483647) ∧ (-2147483648 ≤ b ∧ b ≤ 2147483647))
     (hno : ∀ n cond, Call.output n cond ∈ ds → ∀ a b, n ≠ edgeName a b) :
     ∃ E : I → I,
-      (∀ X, Stable (progOf ds) X → Stable (rulesOf (convert true (stepCalls inc ds)).out) (E X) ∧ E X 1 = false) ∧
-      (∀ X', Stable (rulesOf (convert true (stepCalls inc ds)).out) X' → X' 1 = false → ∃ X, Stable (progOf ds) X ∧ E X = X') ∧
+      (∀ X, Stable (progOf ds) X → Stable (progOf (convert true (stepCalls inc ds)).out) (E X) ∧ E X 1 = false) ∧
+      (∀ X', Stable (progOf (convert true (stepCalls inc ds)).out) X' → X' 1 = false → ∃ X, Stable (progOf ds) X ∧ E X = X') ∧
       (∀ X a b, (-2147483648 ≤ a ∧ a ≤ 2147483647) → (-2147483648 ≤ b ∧ b ≤ 2147483647) →
         (edgeActive ds X a b ↔ shownOut (convert true (stepCalls inc ds)).out (E X) (edgeName a b))) := by
-  obtain ⟨E, h1, h2, h3⟩ := C02_equivalence true inc ds hx hnh (Or.inr hE)
+  obtain ⟨E, h1, h2, h3⟩ := C02_equivalence_ext inc ds hx hnh
   refine ⟨E, fun X hs => ⟨(h1 X hs).1, (h1 X hs).2.1⟩, fun X' hs h0 => ⟨_, (h2 X' hs h0).1, (h2 X' hs h0).2⟩, ?_⟩
   intro X a b ha hb
   rw [← h3 X (edgeName a b)]
@@ -85,32 +86,18 @@ theorem heuOutName_eq (nm : List Nat) (h : Heu) : heuOutName nm h = heuText nm h
     directive's condition holds under `X` — the modification is active in corresponding answer sets, and only there — and `name` is a name under which the
     emitted program shows the atom `a` is mapped to (a display name given by an output directive, or the generated `_atom(n)`).  (`C08_table_read` /
     `C08_heuristics_resolved`: the smodels reader turns that symbol back into a heuristic directive on the atom its `name` denotes.) -/
-theorem C08_heuristics_active (inc : Bool) (ds : List Call) (hx : ∀ d ∈ ds, PlainOk d) (hE : extCalls ds = []) :
+theorem C08_heuristics_active (inc : Bool) (ds : List Call) (hx : ∀ d ∈ ds, PlainOk d) :
     ∃ E : I → I,
-      (∀ X, Stable (progOf ds) X → Stable (rulesOf (convert true (stepCalls inc ds)).out) (E X) ∧ E X 1 = false ∧ restrict (convert true (stepCalls inc ds)) (E X) = X) ∧
-      (∀ X', Stable (rulesOf (convert true (stepCalls inc ds)).out) X' → X' 1 = false →
+      (∀ X, Stable (progOf ds) X → Stable (progOf (convert true (stepCalls inc ds)).out) (E X) ∧ E X 1 = false ∧ restrict (convert true (stepCalls inc ds)) (E X) = X) ∧
+      (∀ X', Stable (progOf (convert true (stepCalls inc ds)).out) X' → X' 1 = false →
         Stable (progOf ds) (restrict (convert true (stepCalls inc ds)) X') ∧ E (restrict (convert true (stepCalls inc ds)) X') = X') ∧
       (∀ a t b p cond, Call.heuristic a t b p cond ∈ ds → a ∈ domOf (preEnd true inc ds) →
         ∃ nm n sm, Call.output (heuText nm t b p) [(n : Int)] ∈ (convert true (stepCalls inc ds)).out ∧
           (∀ X, bodyR (E X) (E X) (.normal [(n : Int)]) = bodyR X X (.normal cond)) ∧
           (a, sm) ∈ (abs (convert true (stepCalls inc ds))).ids ∧ Call.output nm [(sm : Int)] ∈ (convert true (stepCalls inc ds)).out) := by
   obtain ⟨defs, h1, q1, x1, y1⟩ := JHX.pre true inc ds hx
-  have hE' : (preEnd true inc ds).ext = false ∨ (preEnd true inc ds).externs = [] := by
-    right; rw [x1.r, run_regs_nil ds {} hE]
-  obtain ⟨f1, f2, f3⟩ := flushMinimize_flags (preEnd true inc ds)
-  have hshape : FlushShape (preEnd true inc ds).flushMinimize := by
-    apply flushShape
-    · intro a ha
-      exact dom_mono (flushMinimize_steps _) h1.inv a (x1.m a (f2 ▸ ha))
-    · rcases hE' with h | h
-      · exact Or.inl (f3.trans h)
-      · exact Or.inr (f2.trans h)
-  have hj : J (convert true (stepCalls inc ds)) ((rulesOf ds).filter kept ++ extRules ds) defs := by
-    rw [convert_step, apply_end _ h1.nofail, ← extP_decl _ ds x1]
-    exact (h1.flush x1.m hE').emit _ rfl
-  have hst : Steps (abs (preEnd true inc ds)) (abs (convert true (stepCalls inc ds))) := by rw [convert_step]; exact apply_steps _ _
+  obtain ⟨hj, tr, hshape, hst⟩ := trans_ext_of inc ds hx h1 x1
   have ok := ctx_ok hj
-  have tr := ctx_trans hj
   refine ⟨fun X => (ctxOf (convert true (stepCalls inc ds)) defs).E X X, ?_, ?_, ?_⟩
   · intro X hs
     have hs' := (stable_filter_kept_app _ _ X).mpr hs
